@@ -28,6 +28,7 @@ type rcase struct {
 	V      int      `json:",omitempty"`
 	Level  int      `json:",omitempty"` // 0..3 = L M Q H
 	Mask   int      `json:",omitempty"`
+	Twin   bool     `json:",omitempty"` // QR symbol with near-identical data blocks (twinText)
 	DM     int      `json:",omitempty"` // index into the 30 sizes (ascending capacity)
 	Key    string   // violation key template (%s = optional size class)
 	Expect string   // "exact" | "not-different" | "info"
@@ -66,6 +67,7 @@ func main() {
 	runSingle()
 	runFull()
 	runOver()
+	runTwinBlocks()
 	runSelfTest()
 	runFormat()
 	runVersion()
@@ -163,7 +165,7 @@ func classCount(syms ...[]*symbol) map[string]int {
 // one case
 
 func (s *symbol) rcase(key, expect string, f *fault) rcase {
-	rc := rcase{Symbol: s.name(), Kind: s.Kind, V: s.V, Level: s.L, Mask: s.Mask, DM: s.DMi, Key: key, Expect: expect,
+	rc := rcase{Symbol: s.name(), Kind: s.Kind, V: s.V, Level: s.L, Mask: s.Mask, Twin: s.Twin, DM: s.DMi, Key: key, Expect: expect,
 		CW: f.CW, XOR: f.XOR, Flips: f.Flips}
 	var sb strings.Builder
 	for i, p := range f.CW {
